@@ -365,7 +365,26 @@ class Interp:
             elif isinstance(st, ast.ImportFrom) and st.level == 0:
                 for al in st.names:
                     if (al.asname or al.name) == name:
-                        found = Opaque(f"{st.module}.{al.name}")
+                        if st.module == "collections" and al.name == "defaultdict":
+                            import collections as _c
+
+                            def _dd(factory=None, *a, **k):
+                                fac = factory
+                                if isinstance(factory, Builtin):
+                                    fac = lambda: factory.fn()
+                                elif not (factory is None or factory in (int, list, dict, set, float, str, tuple)):
+                                    raise AnalysisError(f"peval: defaultdict factory {factory!r}")
+                                return _c.defaultdict(fac, *a, **k)
+
+                            found = Builtin("defaultdict", _dd)
+                        elif st.module == "collections" and al.name == "OrderedDict":
+                            found = Builtin("OrderedDict", lambda *a, **k: dict(*a, **k))
+                        elif st.module == "itertools" and al.name == "count":
+                            found = Builtin("itertools.count", lambda start=0, step=1: IterVal(count_from=start, step=step))
+                        elif st.module == "itertools" and al.name == "product":
+                            found = Builtin("itertools.product", lambda *a, **k: list(itertools.product(*[self.iterate(x) for x in a], **k)))
+                        else:
+                            found = Opaque(f"{st.module}.{al.name}")
             elif isinstance(st, ast.Assign):
                 for t in st.targets:
                     if isinstance(t, ast.Name) and t.id == name:
@@ -1042,6 +1061,8 @@ class Interp:
         if isinstance(c, dict):
             if k in c:
                 return c[k]
+            if getattr(c, "default_factory", None) is not None:
+                return c[k]  # collections.defaultdict: creates and returns the default
             raise PyExc("KeyError", repr(k))
         if isinstance(c, Opaque):
             return Opaque(f"{c.tag}[{k}]")
